@@ -16,7 +16,9 @@ LEVEL_TEXT = ("Theorems in Coq (Props/C09.v): sigalg_table_consistent (OID <-> a
               "constraints (MaxPathLen -1/0/MaxPathLenZero) and DER INTEGER (serials of any sign/size, minimal length) for all inputs. "
               "Differential run: ~500 (quick) / ~3000 (thorough) templates over all documented fields x signer {SM2, RSA-2048, P-256} x 22 "
               "algorithm values: parse-back of every field, verification under the issuer and under another key, and 5-8 thousand single-byte "
-              "mutants per object (all positions in the thorough tier); the model predicts accept/reject and self-verification of every case.")
+              "mutants per object (all positions in the thorough tier) plus ~25 arithmetic mutants of the signature VALUE "
+              "((r,s+N), (r+N,s), s+2N, r-N, N-s for SM2, swapped, negated, zero-padded integers, long-form lengths, surplus element / byte; "
+              "RSA: c+N, 0||c, N-c), each spliced into the object with lengths fixed up; the model predicts accept/reject and self-verification of every case.")
 LEVEL_NOTE = ("Field-by-field parse-back through encoding/asn1 and pkix is NOT proved; it is checked by the differential run only. The "
               "cryptographic primitives are outside these theorems (SM2: C01; crypto/rsa, crypto/ecdsa trusted); 'verifies only under the "
               "issuer' and 'any changed byte is rejected' are observed on every generated object, not proved. The signing model abstracts "
@@ -24,7 +26,10 @@ LEVEL_NOTE = ("Field-by-field parse-back through encoding/asn1 and pkix is NOT p
               "isRSAPSS, marshalPublicKey's OIDs and both switches are taken from the source by the translator, the control flow around them "
               "is modelled by hand and tied by the run. Byte changes inside the OUTER signatureAlgorithm (neither signed bytes nor signature "
               "value) survive for certificates (the parser reads only the inner identifier) and for SM2 / RSA CSRs and CRLs (sibling SM2 OIDs, "
-              "NULL tag): counted in the statistics (algsurvivor), not a failure of this property. MD5WithRSA is inside the property (RSA family): it is refused "
+              "NULL tag): counted in the statistics (algsurvivor), not a failure of this property. For plain ECDSA the pair (r, N-s) is the well-known second signature "
+              "of the same message (a property of ECDSA, accepted by crypto/ecdsa): it is not among the arithmetic mutants of P-256 signatures; "
+              "it is for SM2. Since c7e548c an EC signature value must be exactly DER SEQUENCE{r,s} (surplus element rejected; regression "
+              "mutant seq+extra-int). MD5WithRSA is inside the property (RSA family): it is refused "
               "at creation since 08c5823. corpus/c09/c09_anomalies.cases holds the inputs of the four defects repaired in c92c937, 08c5823, "
               "9737171, 26cf598 as regression cases.")
 TRUSTED_BASE = [
@@ -46,7 +51,8 @@ RULE = ("seeded generator (VERIF_SEED): every (kind, signer, algorithm) combinat
         "names with multi-valued and extra attributes and non-ASCII strings, validity bounds (1950/2049/2050/9999, time zones), all key-usage bits, "
         "EKUs incl. unknown OIDs, basic constraints and path lengths incl. MaxPathLenZero, SANs of each kind, name constraints, policy OIDs, "
         "AIA/CRL distribution points, extra extensions, CSR attributes, CRL entries with extensions; per object: parse-back of every field, "
-        "verification under issuer / other key, single-byte mutants (quick: every header octet with all 255 values + one mutant at every other "
+        "verification under issuer / other key, arithmetic mutants of the decoded signature value (congruent values mod the group order, "
+        "non-canonical encodings), single-byte mutants (quick: every header octet with all 255 values + one mutant at every other "
         "sampled position; thorough: all positions). Every T case is non-trivial; distinct = distinct case text")
 
 
@@ -131,7 +137,7 @@ def predicate(f, io):
     if v_other != "0":
         return False, "created %s verifies under a different key" % kind
     if s_tbs or s_sig or s_hdr:
-        return False, "single-byte change still verifies: tbs=%d sig=%d hdr=%d (%s)" % (s_tbs, s_sig, s_hdr, detail)
+        return False, "changed object still verifies (single-byte or arithmetic signature mutant): tbs=%d sig=%d hdr=%d (%s)" % (s_tbs, s_sig, s_hdr, detail)
     # s_alg > 0 (changes inside the outer signatureAlgorithm, which is neither signed nor the signature value) is
     # reported through classify(), not a failure of this property
     return True, ""
